@@ -365,6 +365,20 @@ def _export_jobs(jobs, path, copytree):
     # Check leaf/node consistency
     _check_directory_structure_validity(paths.values())
 
+    # Every job must be exported beneath the target, e.g., a state point value
+    # like "../x" must not lead to a path outside of it.
+    for dst in paths.values():
+        normalized = os.path.normpath(dst)
+        if (
+            os.path.isabs(normalized)
+            or normalized == os.pardir
+            or normalized.startswith(os.pardir + os.path.sep)
+        ):
+            raise RuntimeError(
+                f"The path '{dst}' points outside of the export target. "
+                "Provide a custom path."
+            )
+
     for src, dst in paths.items():
         copytree(src, dst)
         yield src, dst
